@@ -124,6 +124,18 @@ impl LinearLocatorState {
 impl<'a> LinearLocator<'a> {
     // nl = newline
 
+    /// Verification hook: the complete cursor state `(line_start, line_end, line_number, cursor, is_ascii)`.
+    #[cfg(rustpython_parser_verif)]
+    pub fn verif_state(&self) -> (u32, Option<u32>, u32, u32, bool) {
+        (
+            self.state.line_start.to_u32(),
+            self.state.line_end.map(|end| end.to_u32()),
+            self.state.line_number.get(),
+            self.state.cursor.to_u32(),
+            self.state.is_ascii,
+        )
+    }
+
     #[inline]
     pub fn new(source: &'a str) -> Self {
         let state = LinearLocatorState::init(source);
